@@ -64,6 +64,12 @@ CHECKS = {
             "validated against it.",
             "parameter identity by bit-identical digests; Polyak on real runs up to 1e-6 plus an exact integer instance.",
             "DESIGN.md section 4 C10"),
+    "C09": ("TLA+ Minibatch spec: TLC exhaustive over shapes and permutations + trace validation of real buffer utilities and PPO.train",
+            "TLC checks Minibatch.tla (shuffle, trim to floor(N/B)*B, reshape, consume) against the declarative partition sentences "
+            "for all shapes and all permutations within bounds; the real flatten_axes / batch_indices / gather / batches / sample on "
+            "pytree-structured rollouts (every leaf tagged) and visit counts decoded from the real PPO.train are validated against it.",
+            "fresh shuffle per epoch decided existentially over runs; visit counts decoded through SGD(1) value entries.",
+            "DESIGN.md section 4 C09"),
 }
 
 PENDING_REASON = "check not built yet in this round (planned: see DESIGN.md section 4); not claimed until its machinery exists"
